@@ -47,6 +47,12 @@ RULES = {
 }
 
 
+_TIE_TEXT = ' In addition the model is REGENERATED from the source on every run: harness/translate translates the Go functions (go/types-checked subset) to Gallina and coq/translate/Equiv.v re-proves, for all inputs, that each translated function equals the hand-written model; a semantic change of a translated function breaks that proof obligation.'
+_TIE_NOTE = " Added trusted base of the translation tie: the translator harness/translate/main.go (unverified Go program) and Translate/GoSem.v's reading of Go's integer semantics."
+for _pid in ['C01', 'C02', 'C17']:
+    PROPERTIES[_pid] = dict(PROPERTIES[_pid], text=PROPERTIES[_pid]["text"] + _TIE_TEXT, note=PROPERTIES[_pid]["note"] + _TIE_NOTE)
+
+
 def harness_args(pid, tier, seed):
     if pid == "C17":
         return ["c17", seed]
